@@ -148,6 +148,15 @@ func (e *Engine) globalVar(st *State, v *types.Var) Value {
 		pkg := e.pkgs[v.Pkg().Path()]
 		fc := &FnCtx{e: e, pkg: pkg, info: pkg.TypesInfo, name: "init:" + v.Name(), counters: map[string]int{}, modified: map[types.Object]bool{}}
 		ec := &evalCtx{fc: fc, st: st, info: pkg.TypesInfo, pkg: pkg}
+		savedFailed, hadFailed := st.ghost[failedKey]
+		defer func() {
+			// package initialisation is not part of the function being verified
+			if hadFailed {
+				st.ghost[failedKey] = savedFailed
+			} else {
+				delete(st.ghost, failedKey)
+			}
+		}()
 		func() {
 			defer func() {
 				if r := recover(); r != nil {
